@@ -250,3 +250,22 @@ Proof.
   intros fuel p ls le H1 H2. cbn [wrap_down]. destruct (Z.geb_spec p le); [|lia].
   rewrite sub_chk_panic by lia. reflexivity.
 Qed.
+
+(** the property's own guard is the instance [B = N] *)
+Lemma transport_safe_guarded :
+  forall (fuel : nat) (N start : Z) (lr : option (Z * Z)) (reverse : bool) (ops : list top),
+    0 <= start -> start < N -> N < u64_max -> N < Z.of_nat fuel -> req_loop N lr ->
+    Forall (wf_top N fuel) ops ->
+    exists t', trun fuel N (transport_new start lr reverse N) ops = Ok t' /\
+               0 <= t_pos t' /\ (t_playing t' = true -> t_pos t' < N) /\ wf_loop N (t_loop t').
+Proof.
+  intros fuel N start lr reverse ops H0 H1 H2 H3 H4 H5.
+  apply (transport_safe_all fuel N N start lr reverse ops); try assumption. lia.
+Qed.
+Lemma transport_new_reverse_beyond_end : forall start lr N,
+  0 <= start -> N <= start ->
+  transport_new start lr true N = {| t_pos := 0; t_loop := filter_region lr; t_playing := false |}.
+Proof.
+  intros start lr N H0 H1. unfold transport_new.
+  destruct (Z.leb_spec 1 N); destruct (Z.leb_spec start (N - 1)); cbn [andb]; try reflexivity; lia.
+Qed.
